@@ -179,3 +179,15 @@ func genC03(rt *rapid.T) Case {
 func TestC03Votes(t *testing.T) {
 	common.Check(t, "C03", "TestC03Votes", 8000, 160000, genC03, c03Prop)
 }
+
+// genC03Lag: replicas that fall behind and catch up (partitions that lose messages, timeouts per group), with crashed
+// replicas and optionally the Byzantine actor: the votes of the replica that returns are the interesting ones.
+func genC03Lag(rt *rapid.T) Case {
+	o := GenOpts{Actor: rapid.IntRange(0, 2).Draw(rt, "with-actor") == 0, Crash: true, ActorBias: 12}
+	cfg := GenConfig(rt, o)
+	return Case{Cfg: cfg, Steps: GenLagSteps(rt, cfg, o)}
+}
+
+func TestC03VotesLagging(t *testing.T) {
+	common.Check(t, "C03", "TestC03VotesLagging", 4000, 80000, genC03Lag, c03Prop)
+}
